@@ -10,6 +10,7 @@ AXIOM_ALLOW = []
 THEOREMS = [
 ]
 SHARD = 160
+SEARCH_MAX = 1000
 K_QUICK = 400
 K_THOROUGH = 800
 RULE = ("every limit N = 0..%d (quick) / 0..%d plus sampled limits up to 2000 (thorough): the full tables "
